@@ -101,6 +101,18 @@ def path_keyed(prog, region, sortcall):
     types) compares `PathBuf`/`Path` values, or the elements themselves are ordered and start with a path."""
     tys = ' '.join(sortcall.get('arg_tys') or [])
     m = re.search(r'\{closure@([^:}]+):(\d+):', tys)
+    fm = re.search(r'-> std::cmp::Ordering \{([A-Za-z0-9_:<>]+)\}', tys) or re.search(r'\{([A-Za-z0-9_:]+)\}$', tys.strip())
+    if not m and fm:
+        # a named comparator / key function
+        name = fm.group(1)
+        for k2, fb in prog.bodies.items():
+            if fb['kind'] in ('fn', 'assoc_fn') and (fb['id'] == name or fb['id'].endswith('::' + name.split('::')[-1])):
+                for c in fb['calls']:
+                    if re.search(r'(Ord|PartialOrd)>?::(cmp|partial_cmp)$', c['callee']) and any(re.search(r'\bPath(Buf)?\b', t) for t in c.get('arg_tys', [])):
+                        return True
+                if re.search(r'\bPath(Buf)?\b', fb['locals'].get('_0', '')):
+                    return True
+        return False
     if not m:
         # plain sort(): element type must begin with a path
         return re.search(r'\[\((?:std::path::)?PathBuf,', tys) is not None and re.search(r'::sort(_unstable)?$', sortcall['callee']) is not None
